@@ -73,7 +73,11 @@ def generate(prop, rng, seed, index, tier):
         if rng.random() < 0.2:
             # the source opens the file by name and the writer's chunks are byte strings: cuts may fall inside a
             # multi-byte character
-            alpha2 = [c for c in alpha if c != '\r'] + ['é', '€', 'ß']     # (a text-mode open() translates '\\r')
+            alpha2 = alpha + ['é', '€', 'ß']
+            if rng.random() < 0.4:
+                # CR and CR LF line ends, which a file opened by name hands over as '\\n' (universal newlines) -
+                # also when a write ends between the CR and the LF
+                alpha2 += ['\r', '\r\n', '\r\n']
             text2 = ''.join(rng.choice(alpha2) for _ in range(rng.randrange(1, 24))) + (d if rng.random() < 0.7 else '')
             raw = text2.encode('utf-8')
             cuts2 = sorted(rng.randrange(0, len(raw) + 1) for _ in range(rng.randrange(1, 8)))
@@ -142,7 +146,24 @@ def _sink_spans(ev):
     return [(st, ends[k] if k < len(ends) else None) for k, st in enumerate(starts)]
 
 
+def _bytes_written(sc):
+    s = sc['source']
+    order = sorted(enumerate(o for o in sc['ops'] if not o.get('skip')), key=lambda p: (p[1]['t'], p[0]))
+    return bytes.fromhex(s.get('pre_hex', '')) + b''.join(bytes.fromhex(o['hex']) for _, o in order if o['op'] == 'append')
+
+
 def evaluate(prop, sc, want_trace=False):
+    if sc['source'].get('by_path'):
+        # a valid scenario writes UTF-8 text, possibly not finished yet (the last character may be incomplete);
+        # minimisation can cut a write in the middle of a character and leave bytes no decoder accepts
+        import codecs
+        try:
+            codecs.getincrementaldecoder('utf-8')().decode(_bytes_written(sc), False)
+        except UnicodeDecodeError:
+            out = Outcome()
+            out.status = 'invalid_scenario'
+            out.signature = 'invalid'
+            return out
     rec, status = run_source(sc)
     ev = rec.events
     out = Outcome()
@@ -167,8 +188,12 @@ def evaluate(prop, sc, want_trace=False):
         order = sorted(enumerate(ops), key=lambda p: (p[1]['t'], p[0]))
         visible = s.get('pre', '') + ''.join(o.get('data', '') for _, o in order if o['op'] == 'append')
         if s.get('by_path'):
-            visible = (bytes.fromhex(s.get('pre_hex', '')) + b''.join(bytes.fromhex(o['hex']) for _, o in order
-                                                                   if o['op'] == 'append')).decode('utf-8')
+            import codecs
+            visible = codecs.getincrementaldecoder('utf-8')().decode(_bytes_written(sc), False)
+            # universal newlines; a CR at the very end is not decided yet (an LF may follow): it is held back
+            if visible.endswith('\r'):
+                visible = visible[:-1]
+            visible = visible.replace('\r\n', '\n').replace('\r', '\n')
         startpos = len(s.get('pre', '')) if s.get('from_end') else 0
         body = visible[startpos:]
         expected = [r + d for r in body.split(d)[:-1]]
